@@ -65,7 +65,8 @@ Proof. vm_compute. reflexivity. Qed.
 Definition expected_covered : list string :=
   ["keyvalue.PutData"; "keyvalue.DeleteData"; "labelmap.CleaveLabel"; "labelmap.ChangeLabelIndex";
    "neuronjson.storeAndUpdate"; "datastore.newVersion";
-   "annotation.StoreElements"; "annotation.DeleteElement"; "annotation.MoveElement"; "datastore.merge"].
+   "annotation.StoreElements"; "annotation.DeleteElement"; "annotation.MoveElement"; "datastore.merge";
+   "neuronjson.DeleteData"].
 
 Definition named_site_covered (name : string) : bool :=
   match find_site name with Some s => site_covered s | None => false end.
@@ -94,6 +95,12 @@ Proof.
   apply negb_true_iff in H2, H3.
   exists k, fin. repeat split; assumption.
 Qed.
+
+Lemma generated_shard_keys_agree : shard_keys_agree shard_keys = true.
+Proof. vm_compute. reflexivity. Qed.
+
+Lemma generated_single_txn : single_txn badger_txns = true.
+Proof. vm_compute. reflexivity. Qed.
 
 (* ---- hand-written sites for the non-vacuity examples (independent of the generated table) ---- *)
 Definition ex_locked : gsite :=
